@@ -76,6 +76,14 @@ void scenariosArchives(Emitter& e)
 		std::vector<ref::VolMember> ms; for (auto p : { std::make_pair("a.txt", pay(5, 0x30)), std::make_pair("B", pay(0, 0)), std::make_pair("cc.bin", pay(6, 0x41)) }) { ref::VolMember m; m.name = p.first; m.stored = p.second; ms.push_back(m); }
 		e.emit("vol-3-members", "reference", ref::encodeVol(ms).bytes);
 		Archive::VolFile::CreateArchive("e.vol", {}); e.emit("vol-empty", "library", mc::readFile("e.vol")); e.emit("vol-empty", "reference", ref::encodeVol({}).bytes);
+		{
+			// a name table longer than 256 bytes that does not end on a 4-byte boundary (21 names of 12 characters: 273 bytes, 3 of
+			// padding): a writer that assembles the table in a buffer of its own has a large-table path (seeded change S18q)
+			std::vector<std::string> many; std::vector<ref::VolMember> mm;
+			for (int i = 0; i < 21; ++i) { char nm[16]; std::snprintf(nm, sizeof nm, "member%02d.dat", i); mc::writeFile(nm, pay(1, uint8_t(i))); many.push_back(nm); ref::VolMember m; m.name = nm; m.stored = pay(1, uint8_t(i)); mm.push_back(m); }
+			Archive::VolFile::CreateArchive("o21.vol", many); e.emit("vol-21-members", "library", mc::readFile("o21.vol"));
+			e.emit("vol-21-members", "reference", ref::encodeVol(mm).bytes);
+		}
 		Archive::VolFile::CreateArchive("o4.vol", { "sub/z9", "a.txt", "B", "sub/cc.bin" }); e.emit("vol-4-members", "a", mc::readFile("o4.vol"));
 		Archive::VolFile::CreateArchive("o4.vol", { "B", "./sub/cc.bin", "sub/z9", "./a.txt" }); e.emit("vol-4-members", "b", mc::readFile("o4.vol"));
 		// names sharing a stem (different extensions), a name that is a prefix of another, names differing only in the last
